@@ -317,6 +317,8 @@ structure Opts where
   noWarn : Bool
   /-- `--single-stream` -/
   single : Bool
+  /-- `enum message_verbosity` after the command line: 0 V_SILENT, 1 V_ERROR, 2 V_WARNING (default), 3 V_VERBOSE, 4 V_DEBUG -/
+  verbosity : Nat
   deriving Repr
 
 /-- Everything the tool learns about one input file from liblzma and from its own format detection. -/
@@ -406,6 +408,32 @@ def Msg.exit : Msg → Exit
 /-- `message_warning` / `message_error` call `set_exit_status`. -/
 def exitOfMsgs (msgs : List Msg) : Exit := msgs.foldl (fun e m => setExit e m.exit) .success
 
+/-! #### Verbosity (`-q`, `-v`): what is printed, never what is decided -/
+
+/-- The level a diagnostic is issued at: `message_error` → V_ERROR (1), `message_warning` → V_WARNING (2). -/
+def Msg.level : Msg → Nat
+  | .error => 1
+  | .warning => 2
+
+/-- `vmessage()`: the text goes to stderr iff `v <= verbosity`. -/
+def Msg.printed (verbosity : Nat) (m : Msg) : Bool := decide (m.level ≤ verbosity)
+
+/-- `message_warning()` / `message_error()` at verbosity `verbosity`: print (or not), then ALWAYS `set_exit_status`. -/
+def messageExit (_verbosity : Nat) (old : Exit) (m : Msg) : Exit := setExit old m.exit
+
+def exitOfMsgsAt (verbosity : Nat) (msgs : List Msg) : Exit := msgs.foldl (messageExit verbosity) .success
+
+/-- Verbosity after the command line: V_WARNING, each `-q` one down (not below V_SILENT), each `-v` one up (not above V_DEBUG);
+    `true` = `-q`, `false` = `-v`. -/
+def verbosityOf (flags : List Bool) : Nat :=
+  flags.foldl (fun v q => if q then v - 1 else (if v < 4 then v + 1 else v)) 2
+
+/-- Number of diagnostic lines on stderr. -/
+def printedCount (verbosity : Nat) (msgs : List Msg) : Nat := (msgs.filter (Msg.printed verbosity)).length
+
+def msgExitRowOk (row : Nat × Nat × Nat) : Bool :=
+  (messageExit row.1 .success .warning).code == row.2.1 && (messageExit row.1 .success .error).code == row.2.2
+
 /-- `if (es == E_WARNING && no_warn) es = E_SUCCESS;` -/
 def finalExit (noWarn : Bool) (e : Exit) : Nat :=
   if e == .warning && noWarn then 0 else e.code
@@ -440,7 +468,7 @@ def xzRunFold (cfg : Cfg) (o : Opts) : List FileIn → Dest → RunRes
     { out := rr.out, trace := r.trace ++ rr.trace, msgs := r.msgs ++ rr.msgs,
       created := r.created :: rr.created, createdTraces := r.createdTrace :: rr.createdTraces }
 
-def xzExit (o : Opts) (r : RunRes) : Nat := finalExit o.noWarn (exitOfMsgs r.msgs)
+def xzExit (o : Opts) (r : RunRes) : Nat := finalExit o.noWarn (exitOfMsgsAt o.verbosity r.msgs)
 
 /-! ### xzdec / lzmadec -/
 
